@@ -201,3 +201,42 @@ def target_fit_process_frame():
 
 def targets():
     return [target_to_lmfit(), target_from_lmfit(), target_extract_parameters(), target_fit_process_frame()]
+
+
+def target_fit_identifiers():
+    """generate_fit_identifiers(circuit): for every element of circuit.generate_element_identifiers(running=True) and every
+    parameter symbol of that element, the identifier is '<symbol>_<running id>' -- the names _to_lmfit registers, _from_lmfit
+    reads back and _extract_parameters looks up -- and nothing else is in the mapping"""
+    qual = "generate_fit_identifiers"
+
+    def run(sess: Session):
+        e1 = FakeElement("R", ["R"], (False,))
+        e2 = FakeElement("Q", ["Y", "n"], (False, False))
+        e3 = FakeElement("R", ["R"], (False,))
+        asked = []
+
+        class Circuit:
+            def generate_element_identifiers(self, running):
+                asked.append(running)
+                return {e1: 0, e2: 1, e3: 10}
+        made = []
+
+        class FitIdentifiers:
+            def __init__(self, **kw):
+                self.kw = kw
+                made.append(kw)
+        ns = _load([qual], {"FitIdentifiers": FitIdentifiers, "Circuit": Circuit, "isinstance": lambda a, b: True})
+        out = ns[qual](Circuit())
+        sess.check("post", [], z3.BoolVal(asked == [True]), 0, label="identifiers are the RUNNING ones (unique across element types)")
+        ok = isinstance(out, dict) and list(out) == [e1, e2, e3] and all(isinstance(v, FitIdentifiers) for v in out.values())
+        sess.check("post", [], z3.BoolVal(ok), 0, label="one FitIdentifiers per element, nothing else")
+        if ok:
+            sess.check("post", [], z3.BoolVal(out[e1].kw == {"R": "R_0"} and out[e2].kw == {"Y": "Y_1", "n": "n_1"} and out[e3].kw == {"R": "R_10"}), 0, label="identifier of (element, symbol) == '<symbol>_<running id>' for exactly the element's own symbols")
+    return (f"{FIT}:{qual}", FIT, qual, run)
+
+
+_targets_c12_core = targets
+
+
+def targets():      # noqa: F811
+    return _targets_c12_core() + [target_fit_identifiers()]
